@@ -27,7 +27,7 @@ PLAIN_IDS = ['a', 'b', 'c', 'col1', 'Tbl', 'x_y', 'tab2', 'myCol', 't1', 'price'
 QUOTED_IDS = ['`my col`', '`a-b`', '`Ünï`', '`x y z`', '`1st`']
 DB_IDS = ['int1', 'mindsdb', 'files', 'proj', 'db2']
 STRINGS = ["'x'", "'hello world'", "''", "'a b'", "'2020-01-01'", "'Ünïcode'", "'%abc%'", "'a:b'",
-           "'semi;colon'", "'dash--dash'", "'/* c */'", "'1'", '"dq"', '"d q"']
+           "'semi;colon'", "'dash--dash'", "'/* c */'", "'1'", '"dq"', '"d q"', "'my\\_tbl%'", "'back\\\\slash'", "'50%'"]
 INTS = ['0', '1', '2', '7', '10', '42', '100', '007', '123456789012345678901']
 FLOATS = ['0.5', '1.0', '3.14', '10.25', '00.50', '0.00001', '0.30000000000000004', '10000000000000000.0', '123456.78901234567', '0.0000001234']
 FUNCS = ['count', 'sum', 'max', 'min', 'avg', 'lower', 'upper', 'coalesce', 'abs', 'concat', 'my_func']
@@ -421,7 +421,7 @@ def _show(rng):
             s += f' {rng.choice(["FROM", "IN"])} {ident(rng, 0)}'
     r = rng.random()
     if r < 0.25:
-        s += f" LIKE {rng.choice(STRINGS[:5])}"
+        s += f" LIKE {rng.choice(STRINGS)}"
     elif r < 0.5:
         s += f' WHERE {expr(rng, 1, True, subq=False)}'
     return s
